@@ -3,7 +3,7 @@ import PvlModel.Model.Token
   Model of `pvl/lexer.py`.  The generator is restated as an eager function
   `lexAll : text → (tokens, tail)`; the lazy reading (how far the generator had to run to deliver
   token *n*) is `Token.last`.  The tail says what the generator does when asked for the token
-  after the last one: stop, raise the character-set `LexerError`, or leak the decoder's `TypeError`.
+  after the last one: stop, or raise the character-set `LexerError`.
 -/
 namespace Pvl
 open Py
@@ -25,7 +25,6 @@ structure Token where
 inductive Tail
   | eof
   | lexerr (pos : Int)
-  | typeerr
   deriving Repr, DecidableEq
 
 def charAllowed (g : Grammar) (c : Nat) : Bool := inRanges g.allowed c
@@ -77,20 +76,20 @@ def lexChar (g : Grammar) (ch : Nat) (prev next : Option Nat) (ls : LS) : LS :=
 
 /-- `lex_continue` (lexer.py:290).  `Token(x, grammar=g)` without a decoder uses
     `PVLDecoder(grammar=g)`. -/
-def lexContinue (g : Grammar) (d : Dec) (ch : Nat) (next : Option Nat) (ls : LS) : Except DErr Bool :=
+def lexContinue (g : Grammar) (d : Dec) (ch : Nat) (next : Option Nat) (ls : LS) : Bool :=
   match next with
-  | none => .ok false
+  | none => false
   | some n =>
-    if !charAllowed g n then .ok false
-    else if ls.st != .off then .ok true
+    if !charAllowed g n then false
+    else if ls.st != .off then true
     else
       let pd : Dec := ⟨g, .pvl⟩
-      if g.numericStart.contains ch && Tok.isNumeric pd [ch, n, 48] then .ok true
-      else if ndPreFull g.ndPrePattern (ls.lexeme ++ [n]) then .ok true
+      if g.numericStart.contains ch && Tok.isNumeric pd [ch, n, 48] then true
+      else if ndPreFull g.ndPrePattern (ls.lexeme ++ [n]) then true
       else if (ch == 101 || ch == 69) && g.numericStart.contains n
-              && Tok.isNumeric pd (ls.lexeme ++ [n, 50]) then .ok true
+              && Tok.isNumeric pd (ls.lexeme ++ [n, 50]) then true
       else if g.numericStart.contains n then Tok.isDatetime d ls.lexeme
-      else .ok false
+      else false
 
 /-- the yield condition (lexer.py:415-424) -/
 def yieldCond (g : Grammar) (d : Dec) (next : Option Nat) (rest : Str) (lexeme : Str) : Bool :=
@@ -114,9 +113,8 @@ def lexGo (g : Grammar) (d : Dec) : Str → Nat → Option Nat → LS → List T
       if ls1.lexeme.isEmpty then lexGo g d rest (i + 1) (some ch) ls1 acc
       else
         match lexContinue g d ch next ls1 with
-        | .error _ => (acc.reverse, .typeerr)
-        | .ok true => lexGo g d rest (i + 1) (some ch) ls1 acc
-        | .ok false =>
+        | true => lexGo g d rest (i + 1) (some ch) ls1 acc
+        | false =>
           if yieldCond g d next rest ls1.lexeme then
             lexGo g d rest (i + 1) (some ch) { ls1 with lexeme := [] }
               (⟨ls1.lexeme, (i : Int) - ls1.lexeme.length + 1, i⟩ :: acc)
